@@ -894,6 +894,26 @@ theorem alGet_map_find (members : List MemberIn) (f : MemberIn → List TP) (c :
     · simp [h]
     · simp [h, ih]
 
+theorem mem_isort_iff (l : List Nat) (a : Nat) : a ∈ isort l ↔ a ∈ l := by
+  show a ∈ isortK id l ↔ a ∈ l
+  induction l with
+  | nil => simp [isortK]
+  | cons x r ih =>
+    show a ∈ insertK id x (isortK id r) ↔ _
+    have : ∀ (l : List Nat), a ∈ insertK id x l ↔ a = x ∨ a ∈ l := by
+      intro l
+      induction l with
+      | nil => simp [insertK]
+      | cons y ys ih2 =>
+        unfold insertK
+        split
+        · simp
+        · simp only [List.mem_cons, ih2]
+          constructor
+          · rintro (h | h | h) <;> simp [h]
+          · rintro (h | h | h) <;> simp [h]
+    rw [this, ih]; simp
+
 theorem initState_pot (parts : List (Topic × List Nat)) (members : List MemberIn) (oracle : List TP)
     (hparts : (parts.map (·.1)).Nodup) :
     Pot (populatePartitionsToReassign (populateSortedPartitions (initState parts members oracle))) := by
@@ -925,12 +945,12 @@ theorem initState_pot (parts : List (Topic × List Nat)) (members : List MemberI
         simp only [List.mem_map] at hm
         obtain ⟨tp, htp, heq⟩ := hm
         injection heq with h1 _
-        rw [← h1]; exact htp
+        rw [← h1]; exact (List.mem_filter.mp htp).1
       obtain ⟨tps, htps, hq⟩ := List.mem_flatMap.mp hp
       obtain ⟨q, hq1, hq2⟩ := List.mem_map.mp hq
       unfold potentialOf
       apply List.mem_flatMap.mpr
-      refine ⟨p.1, by simpa using hsub, ?_⟩
+      refine ⟨p.1, (mem_isort_iff _ _).mpr (by simpa using hsub), ?_⟩
       have hget : alGet parts tps.1 = some tps.2 := alGet_of_mem_nodup parts tps.1 tps.2 hparts htps
       rw [← hq2]
       simp only [hget]
@@ -986,26 +1006,6 @@ theorem mem_insertSorted (t : Topic) (ps : List Nat) (acc : List (Topic × List 
         · rcases ih h with h | h
           · exact Or.inl h
           · exact Or.inr (List.mem_cons_of_mem _ h)
-
-theorem mem_isort_iff (l : List Nat) (a : Nat) : a ∈ isort l ↔ a ∈ l := by
-  show a ∈ isortK id l ↔ a ∈ l
-  induction l with
-  | nil => simp [isortK]
-  | cons x r ih =>
-    show a ∈ insertK id x (isortK id r) ↔ _
-    have : ∀ (l : List Nat), a ∈ insertK id x l ↔ a = x ∨ a ∈ l := by
-      intro l
-      induction l with
-      | nil => simp [insertK]
-      | cons y ys ih2 =>
-        unfold insertK
-        split
-        · simp
-        · simp only [List.mem_cons, ih2]
-          constructor
-          · rintro (h | h | h) <;> simp [h]
-          · rintro (h | h | h) <;> simp [h]
-    rw [this, ih]; simp
 
 /-- every `(topic, partitions)` item of the final answer lists only partitions the consumer holds -/
 theorem finalFor_sound (l : List TP) : ∀ (acc : List (Topic × List Nat)) (held : List TP),
